@@ -62,7 +62,7 @@ def regenerate(ctx):
         ctx.corr_broken.append({"what": "extractor harness/tiff/extract_tiff_constants.cpp does not compile against tiff.cpp "
                                         "(a name the model transcribes is gone or changed shape)", "log": log[-3000:]})
         return False
-    rc, out, err = C.sh([exe, os.path.join(C.BUILD, "x_tiff", "probe.tif")], timeout=60, env=C.SAN_ENV)
+    rc, out, err = C.sh([exe, os.path.join(os.path.dirname(exe), "probe.tif")], timeout=60, env=C.SAN_ENV)
     if rc != 0 or "end AcqVerif.Tiff.K" not in out:
         ctx.corr_broken.append({"what": "extractor failed on the real tiff.cpp", "rc": rc, "stderr": err[-2000:]})
         return False
